@@ -2,6 +2,7 @@
 import json, os, random, concurrent.futures
 import common
 import c03gen as G
+import c03s as S
 from common import Report, log
 
 MANIFEST = dict(
@@ -12,7 +13,7 @@ MANIFEST = dict(
 
 DF_NONE = "(DFlags false false)"
 COQ_HEAD = ("From Coq Require Import List String NArith ZArith.\n"
-            "From GV Require Import Spec.RefGrammar Model.Expr Model.ExprParse.\n"
+            "From GV Require Import Spec.RefGrammar Spec.RefStmt Model.Expr Model.ExprParse Model.StmtParse.\n"
             "Import ListNotations.\nLocal Open Scope string_scope.\n")
 
 
@@ -302,6 +303,91 @@ def run_statements(rp, tier, rng):
     rp.cov["stmt_features_held"] = dict(sorted(feats_ok.items()))
     rp.cov["stmt_clause_combinations_held"] = len(combos)
     return cases, viol
+
+
+# ------------------------------------------------------------------------------------------------
+# statements in Coq: Spec/RefStmt.v vs the generator (tie c), Model/StmtParse.v vs parseStatement (tie a)
+
+def run_statements_coq(rp, tier, rng):
+    quick = tier == "quick"
+    gen = S.CoreStmtGen(rng)
+    pres = G.StmtPrescriber()
+    ref = []
+    for i in range(450 if quick else 5000):
+        s = gen.statement()
+        rd = S.LoggingRenderer(rng, rng.choice([0.0, 0.1, 0.25]))
+        try:
+            words = rd.S(s)
+        except RecursionError:
+            continue
+        conv = S.convert(s, rd.log)
+        if conv is None:
+            continue
+        ref.append(dict(id="sref:%d" % i, s=s, words=words, sql=" ".join(words), term=conv[0], srho=conv[1], want=pres.ast(s), feats=G.features(s)))
+    wide_gen = G.StmtGen(rng)
+    wide = []
+    for i in range(300 if quick else 3000):
+        st = wide_gen.statement()
+        try:
+            words = G.StmtRenderer(rng, 0.1).S(st)
+        except RecursionError:
+            continue
+        wide.append(dict(id="swide:%d" % i, words=words, sql=" ".join(words)))
+    other = []
+    src = ref + wide
+    for i in range(500 if quick else 6000):
+        c = src[rng.randrange(len(src))]
+        w = list(c["words"])
+        if len(w) > 60:
+            continue
+        for _ in range(rng.choice([1, 1, 2, 3])):
+            w = G.corrupt(rng, w) if rng.random() < 0.5 else S.corrupt_stmt(rng, w)
+        other.append(dict(id="scorrupt:%d" % i, sql=" ".join(w)))
+    for i in range(100 if quick else 1000):
+        other.append(dict(id="ssoup:%d" % i, sql=" ".join(rng.choice(S.STMT_JUNK) for _ in range(rng.randrange(1, 10)))))
+    for i, sql in enumerate(S.FIXED_TEXTS):
+        other.append(dict(id="sfixed:%d" % i, sql=sql))
+    allc = ref + wide + other
+    outs = vh_lines("c03stmtp", [{"id": c["id"], "sql": c["sql"]} for c in allc])
+    for c, o in zip(allc, outs):
+        c["out"] = o
+    usable = lambda o: not o.get("tok_err") and o.get("tokens") and o["tokens"][-1]["ty"] == "TyEOF" and o["tokens"][-1]["lit"] == ""
+    coq_toks = lambda o: "[" + "; ".join(G.coq_tok(t["ty"], t["lit"], t["n"]) for t in o["tokens"]) + "]"
+    # tie (c): Spec/RefStmt.v render_stmt / ast_of_stmt = generator
+    refu = [c for c in ref if usable(c["out"])]
+    r1 = coq_eval_shards("c03_srender", refu, lambda c: "(%s, %s, %s)" % (c["term"], c["srho"], coq_toks(c["out"])[:-len('; Tk TyEOF ""]')] + "]"),
+                         "fun c => if stmt_render_case_ok c then 0%N else 1%N", shard=150)
+    r2 = coq_eval_shards("c03_sspec", refu, lambda c: "(%s, %s)" % (c["term"], G.coq_sx(c["want"])),
+                         "fun c => if stmt_spec_case_ok c then 0%N else 1%N", shard=150)
+    gen_bad = [c for c, a, b in zip(refu, r1, r2) if a or b]
+    # tie (a): Model/StmtParse.v = parseStatement
+    items = [c for c in allc if usable(c["out"])]
+    def mk(c):
+        o = c["out"]
+        if o.get("panic"):
+            return "(%s, None)" % coq_toks(o)
+        exp = "Some (%s, %d)" % (G.coq_sx(o["tree"]), min(o["pos"], len(o["tokens"]))) if o["accepted"] else "None"
+        return "(%s, %s)" % (coq_toks(o), exp)
+    res = coq_eval_shards("c03_scorr", items, mk, "stmt_case_result tree_flags", shard=120,
+                          decl_type="list (list token * option (sx * nat))")
+    bad = [(c, r) for c, r in zip(items, res) if r == 1 or c["out"].get("panic")]
+    ref_ids = {c["id"] for c in ref}
+    ref_unmodelled = [c for c, r in zip(items, res) if r == 2 and c["id"] in ref_ids]
+    ref_rejected = [c for c in refu if not c["out"]["accepted"]]
+    rp.cov["stmt_coq_reference_statements"] = len(refu)
+    rp.cov["stmt_coq_reference_features"] = dict(sorted(_count(f for c in refu for f in c["feats"]).items()))
+    rp.cov["stmt_corr_cases"] = len(items)
+    rp.cov["stmt_corr_agree_accept"] = sum(1 for c, r in zip(items, res) if r == 0 and c["out"]["accepted"])
+    rp.cov["stmt_corr_agree_reject"] = sum(1 for c, r in zip(items, res) if r == 0 and not c["out"]["accepted"])
+    rp.cov["stmt_corr_unmodelled_branch"] = sum(1 for r in res if r == 2)
+    return dict(ref=refu, gen_bad=gen_bad, bad=bad, ref_unmodelled=ref_unmodelled, ref_rejected=ref_rejected, n=len(items))
+
+
+def _count(it):
+    d = {}
+    for x in it:
+        d[x] = d.get(x, 0) + 1
+    return d
 
 
 # ------------------------------------------------------------------------------------------------
